@@ -60,8 +60,9 @@ class PyTuple:
 class IterSrc:
     """Abstract iterable: length term and k -> item."""
 
-    def __init__(self, n, item, ty=None):
+    def __init__(self, n, item, ty=None, seqs=()):
         self.n, self.item, self.ty = n, item, ty
+        self.seqs = list(seqs)  # underlying sequences walked front to back with index k
 
 
 class Closure:
@@ -310,6 +311,8 @@ class Exec:
     def _snapshot(self, v):
         if isinstance(v, MList):
             return Val(v.ty, v.t)
+        if isinstance(v, MSet):
+            return MSet(v.elem, v.t)
         return v
 
     def finish(self, st, sig, fnode):
@@ -760,8 +763,9 @@ class Exec:
         it.path.append(f'L{s.lineno}:iter')
         if self.feasible(it):
             self.assign(s.target, src.item(k, it), it)
-            if getattr(src, 'seq', None) is not None and self.ms.folds:
-                self.ops(it).prefix_step(src.seq[0], src.seq[1], k)
+            if self.ms.folds:
+                for sty, stt in src.seqs:
+                    self.ops(it).prefix_step(sty, stt, k)
             self.do_hints(it, spec.hints, li, s)
             for cur, sig in self.exec_block(s.body, it):
                 if sig[0] in ('next', 'continue'):
@@ -993,6 +997,7 @@ class Exec:
             ty, t = v.ty, v.t
             src = IterSrc(ty.f_len(t), lambda k, s, ty=ty, t=t: self.wrap(ty.elem, ty.f_at(t, k), s), ty.elem)
             src.seq = (ty, t)
+            src.seqs = [(ty, t)]
             return src
         if isinstance(v, PyTuple):
             return None
@@ -1246,6 +1251,8 @@ class Exec:
             # values of different static types are never equal (str vs int, ...)
             return z3.BoolVal(False)
         if isinstance(a, CounterVal) and isinstance(b, CounterVal):
+            return a.t == b.t
+        if isinstance(a, MSet) and isinstance(b, MSet):
             return a.t == b.t
         raise OutOfSubset(f'== between {a} and {b}')
 
@@ -1794,7 +1801,8 @@ def _b_zip(ex, st, args, kwargs, n, spec):
     for s in srcs[1:]:
         cnt = z3.If(s.n < cnt, s.n, cnt)
     ty = TTuple(*[s.ty for s in srcs]) if all(s.ty is not None for s in srcs) else None
-    return IterSrc(cnt, lambda k, s: PyTuple([x.item(k, s) for x in srcs]), ty)
+    return IterSrc(cnt, lambda k, s: PyTuple([x.item(k, s) for x in srcs]), ty,
+                   [q for x in srcs for q in x.seqs])
 
 
 def _b_enumerate(ex, st, args, kwargs, n, spec):
@@ -1804,7 +1812,7 @@ def _b_enumerate(ex, st, args, kwargs, n, spec):
     start = ex.to_term(args[1], TInt, st) if len(args) > 1 else (
         ex.to_term(kwargs['start'], TInt, st) if 'start' in kwargs else z3.IntVal(0))
     ty = TTuple(TInt, src.ty) if src.ty is not None else None
-    return IterSrc(src.n, lambda k, s: PyTuple([Val(TInt, start + k), src.item(k, s)]), ty)
+    return IterSrc(src.n, lambda k, s: PyTuple([Val(TInt, start + k), src.item(k, s)]), ty, src.seqs)
 
 
 def _b_reversed(ex, st, args, kwargs, n, spec):
